@@ -654,6 +654,9 @@ func explore(c *core.Ctx, cs Case, maxPre, limit int) int {
 		var r sched.Result
 		var info *runInfo
 		for try := 1; ; try++ {
+			pc := cs
+			pc.Choices = prefix
+			c.Pending(pc) // if the run kills the process, this is the failing input
 			r, info = execute(cs, sched.Prefix(prefix))
 			if !have {
 				break
@@ -843,6 +846,7 @@ func run(c *core.Ctx) {
 			pre = append(append([]CallSpec{}, pre...), CallSpec{Op: "Add", S: 1, V: c.Rng.Intn(3)}, CallSpec{Op: "Add", S: 1, V: 3})
 		}
 		cs := Case{Prefix: pre, Progs: progs, Kind: "random"}
+		c.Pending(cs)
 		r, info := execute(cs, sched.Random(c.Rng.Intn, 50))
 		report(c, cs, r, info)
 	}
